@@ -80,8 +80,15 @@ def literal(rng):
     return rng.choice(GEOS)
 
 
+SEGS = ["author", "address", "city", "name", "post", "owner", "parent"]
+
+
 def path(rng):
-    k = rng.randrange(6)
+    k = rng.randrange(7)
+    if k == 6:
+        # long paths over a small vocabulary: different paths share inner segments, and
+        # a path may repeat a segment (parent/parent/name)
+        return "/".join(rng.choice(SEGS) for _ in range(rng.randint(3, 6)))
     if k <= 2:
         return rng.choice(IDENTS)
     if k == 3:
@@ -299,6 +306,9 @@ FIXED = [
     "concat(concat(a, 'x'), b) eq 'axb'",
     "((a eq 1))",
     "a eq 1 or b eq 2 and c eq 3 or d eq 4",
+    "author/address/city/name eq 'x'",
+    "publisher/address/city eq 'y' and owner/parent/parent/parent/name ne null",
+    "post/author/address/city/name eq author/address/city",
 ]
 
 FIXED_BAD = [
